@@ -9,6 +9,15 @@ def gen_ids(rng):
     return s
 
 
+def _replay_c14(ctx, fl):
+    from units import conc
+    return conc.replay_c14(ctx, fl)
+
+
+from units import mk as _mk
+_mk.REPLAYERS["c14-concurrent"] = _replay_c14
+
+
 def conc_part(ctx):
     try:
         from units import conc
